@@ -18,6 +18,7 @@ import (
 
 	"verif/harness/fab"
 	"verif/harness/gen"
+	"verif/harness/mon"
 	"verif/harness/rt"
 	"verif/harness/store"
 )
@@ -59,14 +60,19 @@ func TestC09(t *testing.T) {
 		T := w.AddRaw("T")
 		// the requestor's response hook behaves like a real consumer of an extension
 		var markerSeen int32
+		var markerFirstSeq int64 // logical time of the first sighting
+		sighting := func(kind int32) {
+			atomic.StoreInt32(&markerSeen, kind)
+			atomic.CompareAndSwapInt64(&markerFirstSeq, 0, mon.Tick())
+		}
 		A.OnIncomingBlock = func(pp peer.ID, rs graphsync.ResponseData, b graphsync.BlockData, a graphsync.IncomingBlockHookActions) {
 			if _, ok := rs.Extension(thirdPartyMarker); ok {
-				atomic.StoreInt32(&markerSeen, 1)
+				sighting(1)
 			}
 		}
 		A.OnResponse = func(pp peer.ID, rs graphsync.ResponseData, a graphsync.IncomingResponseHookActions) {
 			if _, ok := rs.Extension(thirdPartyMarker); ok {
-				atomic.StoreInt32(&markerSeen, 2)
+				sighting(2)
 			}
 			if d, ok := rs.Extension(verifExt); ok && d != nil {
 				if s, err := d.AsString(); err == nil {
@@ -169,18 +175,40 @@ func TestC09(t *testing.T) {
 					}
 				}
 			}
+			// recorded finding: once the requestor has finished the request (both channels closed) it no
+			// longer knows which peer the id belonged to, and a response carrying the id reaches the
+			// response hooks whoever sends it. Everything that happened while the request was live must hold.
+			closedAt := w.RetiredAt(req.ID) // reported by a hook in the request manager
+			afterFinish := func(seq int64) string {
+				if closedAt != 0 && seq > closedAt {
+					return "C09/third-party-response-after-request-finished"
+				}
+				return ""
+			}
 			for _, e := range A.Events() {
 				if e.Peer == T.ID && e.ID == req.ID && (e.Kind == "response-hook" || e.Kind == "block-hook") {
-					rep.Violation(ci, "C09/hook-saw-third-party-response", fmt.Sprintf("requestor %s invoked for the victim request with a response from a third peer (status %s)", e.Kind, e.Status), detail())
+					sig := afterFinish(e.Seq)
+					if sig == "" {
+						sig = "C09/hook-saw-third-party-response"
+					}
+					rep.Violation(ci, sig, fmt.Sprintf("requestor %s invoked for the victim request with a response from a third peer (status %s)", e.Kind, e.Status), detail())
 					break
 				}
 			}
 			if ms := atomic.LoadInt32(&markerSeen); ms != 0 {
-				rep.Violation(ci, "C09/hook-saw-third-party-response-data", fmt.Sprintf("a requestor %s hook was handed response data (status/extensions) that came from the third peer", map[int32]string{1: "block", 2: "response"}[ms]), detail())
+				sig := afterFinish(atomic.LoadInt64(&markerFirstSeq))
+				if sig == "" || ms == 1 {
+					sig = "C09/hook-saw-third-party-response-data"
+				}
+				rep.Violation(ci, sig, fmt.Sprintf("a requestor %s hook was handed response data (status/extensions) that came from the third peer", map[int32]string{1: "block", 2: "response"}[ms]), detail())
 			}
 			for _, m := range w.Fab.Wire() {
 				if m.From == A.ID && m.To == T.ID {
-					rep.Violation(ci, "C09/message-sent-to-third-party", "requestor sent a message to the third peer: "+fab.Brief(m), detail())
+					sig := afterFinish(m.Seq)
+					if sig == "" {
+						sig = "C09/message-sent-to-third-party"
+					}
+					rep.Violation(ci, sig, "requestor sent a message to the third peer: "+fab.Brief(m), detail())
 					break
 				}
 			}
